@@ -160,4 +160,25 @@ def spBlock3 (a : String) : List String :=
 #guard has (judge staleParentCase (["restarted 50", "begin 1", "lb c17/w/t/a.c stale", "lb c17/w/t/b.c stale", "lb c17/w/t/a.c stale",
   "sv c17/w/t/a.c notwritten", "end 1"])) "save-failed c17/w/t/a.c"
 
+/-! bytes of a saved binary (`bindump`): a well-formed file naming its program is accepted; a changed byte, a cut file,
+    a file saved for another program, and missing output are not -/
+def tinyImage (name : String) : BinImage :=
+  { magic := [78, 69, 79, 76], driverId := 7, configId := 1000, includes := [], name := name.toUTF8.toList,
+    program := List.replicate 158 0 ++ [1, 0, 1, 0, 0, 0, 0, 0, 0, 0], inheritNames := [], strings := [[120]], varNames := [],
+    funNames := [[102]], lineInfo := [4, 0, 2, 0], patches := [] }
+def tinyHex (name : String) : String := hexOfBytes (encodeFile (tinyImage name))
+def bd : List String := ["bindump c17/w/t/a"]
+#guard judge bd [s!"bin c17/w/t/a {tinyHex "c17/w/t/a.c"}", "binsum c17/w/t/a size=1"] == []
+#guard judge bd [s!"bin c17/w/t/a {(tinyHex "c17/w/t/a.c").take 100}", s!"bin c17/w/t/a {(tinyHex "c17/w/t/a.c").drop 100}",
+  "binsum c17/w/t/a size=1"] == []
+#guard judge bd ["bindump c17/w/t/a unavailable"] == []
+#guard has (judge bd [s!"bin c17/w/t/a {tinyHex "c17/w/t/b.c"}", "binsum c17/w/t/a size=1"]) "saved-binary-names-another-program"
+#guard has (judge bd [s!"bin c17/w/t/a 00{(tinyHex "c17/w/t/a.c").drop 2}", "binsum c17/w/t/a size=1"]) "saved-binary-undecodable"
+#guard has (judge bd [s!"bin c17/w/t/a {(tinyHex "c17/w/t/a.c").dropEnd 20}", "binsum c17/w/t/a size=1"]) "saved-binary-undecodable"
+#guard has (judge bd []) "bindump-without-output"
+#guard has (judge bd ["binsum c17/w/t/a size=1"]) "bindump-unexpected"
+-- the model's reader states what the file holds
+#guard (binSummary "x" (encodeFile (tinyImage "x.c"))).startsWith "binsum x size=213 drv=7 cfg=1000 name=782e63 total=168 inh=- str=1:"
+#guard binSummary "x" ((encodeFile (tinyImage "x.c")).take 100) == "binsum x undecodable"
+
 end NV.C17.SpecTests
